@@ -1,14 +1,18 @@
 #!/bin/bash
 # try_seed.sh <patch.diff> <ID> [<ID>...]  — apply a seeded change to /repo, run the quick checks, undo it.
 # Prints one line per check: CAUGHT / MISSED / INCONCLUSIVE with the first violation signature.
+# With LANE_REPO / LANE_VERIF set (tools/lanes.sh) the change is applied to that scratch worktree and the
+# checks of that scratch copy of the machinery are run instead, so several seeds can be tried at once.
 set -u
 PATCH="$(readlink -f "$1")"; shift
-cd /repo || exit 2
+REPO="${LANE_REPO:-/repo}"; VERIF="${LANE_VERIF:-/verif}"
+export VERIF_REPO="$REPO"
+cd "$REPO" || exit 2
 if ! git diff --quiet; then echo "repo working tree not clean"; exit 2; fi
 git apply "$PATCH" || { echo "patch does not apply"; exit 2; }
-trap 'git -C /repo checkout -- . ; rm -rf /verif/replays/new' EXIT
+trap 'git -C "$REPO" checkout -- . ; rm -rf "$VERIF/replays/new"' EXIT
 for id in "$@"; do
-  out=$(cd /verif && timeout 1500 ./check "$id" quick 2>&1)
+  out=$(cd "$VERIF" && timeout 1500 ./check "$id" quick 2>&1)
   rc=$?
   if [ $rc = 1 ]; then
     sig=$(echo "$out" | grep -A1 '^VIOLATION' | sed -n 2p | cut -c1-160)
